@@ -14,6 +14,18 @@ structure WFT (x : T) : Prop where
   ne : NE x.f
   small : ∀ a ∈ x.f.all ++ x.out, a < big
 
+instance decNE : ∀ f : DF, Decidable (NE f)
+  | .nil => isTrue trivial
+  | .cons d k s =>
+    have := decNE k
+    have := decNE s
+    inferInstanceAs (Decidable (d ≠ [] ∧ NE k ∧ NE s))
+
+instance (x : T) : Decidable (WFT x) :=
+  decidable_of_iff (canon x.f = x.f ∧ sortNat x.out = x.out ∧ (x.f.all ++ x.out).Nodup ∧ NE x.f ∧
+    ∀ a ∈ x.f.all ++ x.out, a < big)
+    ⟨fun h => ⟨h.1, h.2.1, h.2.2.1, h.2.2.2.1, h.2.2.2.2⟩, fun h => ⟨h.1, h.2, h.3, h.4, h.5⟩⟩
+
 theorem WFT.wf {x : T} (w : WFT x) : WF x.f :=
   ⟨(List.nodup_append.mp w.nodup).1, w.ne, fun a ha => w.small a (List.mem_append_left _ ha)⟩
 
